@@ -104,7 +104,10 @@ h_create_hufftables_icf_frame(void)
 void
 h_set_huff_codes_small(void)
 {
-        struct huff_code table[SB_N];
+        /* raw words viewed as struct huff_code: a TYPED object whose type contains a union is subject to the CBMC 6.11
+         * constant-propagation defect (stale member reads); a raw array viewed through a cast is not */
+        uint32_t table_raw[SB_N];
+        struct huff_code *table = (struct huff_code *) table_raw;
         uint32_t count[MAX_HUFF_TREE_DEPTH + 1];
         uint32_t kraft = 0, a, b, last = 0;
         for (int i = 0; i <= MAX_HUFF_TREE_DEPTH; i++)
@@ -138,7 +141,8 @@ h_set_huff_codes_small(void)
 void
 h_set_dist_huff_codes_small(void)
 {
-        struct huff_code codes[DIST_LEN];
+        uint32_t codes_raw[DIST_LEN]; /* raw words viewed as struct huff_code (see h_set_huff_codes_small) */
+        struct huff_code *codes = (struct huff_code *) codes_raw;
         uint32_t bl_count[MAX_DEFLATE_CODE_LEN + 1];
         uint32_t kraft = 0, a, b, g_w; /* the SB_N coded symbols are any window of the 30 */
         HARNESS_ASSUME(g_w <= DIST_LEN - SD_N);
@@ -232,8 +236,10 @@ h_create_packed_dist_table(void)
 void
 h_expand_hufftables_icf(void)
 {
-        struct hufftables_icf *hufftables = malloc(sizeof(*hufftables));
-        HARNESS_ASSUME(hufftables != NULL);
+        /* raw words viewed as struct hufftables_icf (union of two table views over struct huff_code unions): not a
+         * typed object, so the CBMC 6.11 constant-propagation defect on union members cannot produce stale reads */
+        uint32_t hufftables_raw[sizeof(struct hufftables_icf) / sizeof(uint32_t)]; /* uninitialised = arbitrary contents */
+        struct hufftables_icf *hufftables = (struct hufftables_icf *) hufftables_raw;
         expand_hufftables_icf(hufftables);
         VCANARY();
 }
